@@ -114,9 +114,11 @@ func HarnessC10_styles() {
 	globRules := matcherList("glob", nondetIntRange("glob.shape", verifParam("shapeLo"), 4))
 	p.globalStyles[globKey] = globRules
 
+	verifFreeze()
 	style := nondetString("style")
 	out := p.sanitizeStyles(html.Attribute{Key: "style", Val: style}, el)
 	verifNote("out", out.Val)
+	verifAssert(verifEffects() == 0, "C13-no-write-to-shared-state")
 	verifReach("C10-reach")
 	if c10ParseErr {
 		verifAssert(out.Val == "", "C10-parse-error-removes-style")
@@ -187,4 +189,34 @@ func HarnessC10_routing() {
 func stubSanitizeStyles(p *Policy, attr html.Attribute, elementName string) html.Attribute {
 	attr.Val = nondetString("styles.out")
 	return attr
+}
+
+// HarnessC13_styleOrder: two element patterns both matching the element, with
+// different rules for one property; the engine explores both map iteration
+// orders. The result must be the order-independent union semantics.
+func HarnessC13_styleOrder() {
+	p := &Policy{}
+	p.init()
+	el := "div"
+	r1, r2 := nondetRegexp("elpattern1"), nondetRegexp("elpattern2")
+	verifAssume(r1.MatchString(el))
+	verifAssume(r2.MatchString(el))
+	h1, h2 := nondetPred("h1"), nondetPred("h2")
+	p.elsMatchingAndStyles[r1] = map[string][]stylePolicy{"color": {{handler: h1}}}
+	p.elsMatchingAndStyles[r2] = map[string][]stylePolicy{"color": {{handler: h2}}}
+	verifFreeze()
+	out := p.sanitizeStyles(html.Attribute{Key: "style", Val: nondetString("style")}, el)
+	verifAssert(verifEffects() == 0, "C13-no-write-to-shared-state")
+	if c10ParseErr || len(c10Decls) != 1 {
+		return
+	}
+	d := c10Decls[0]
+	v := verifRU(verifLower(d.Value))
+	keep := verifAnd(specStripVendor(verifLower(d.Property)) == "color", verifOr(h1(v), h2(v)))
+	verifAssert(verifImplies(keep, out.Val == d.Property+": "+d.Value), "C13-order-independent-kept")
+	verifAssert(verifImplies(verifNot(keep), out.Val == ""), "C13-order-independent-dropped")
+	// routing through sanitizeAttrs: the hasStylePolicies loop
+	out2 := p.sanitizeAttrs(el, []html.Attribute{{Key: "style", Val: "x"}}, map[string][]attrPolicy{})
+	_ = out2
+	verifAssert(verifCallCount("sanitizeStyles") >= 2, "C13-order-independent-routing")
 }
